@@ -131,7 +131,16 @@ def check_wrapper(run):
             y = np.array([run.rng.uniform(-1e-9, 1e-9) for _ in range(size)])
             y0 = y.copy()
             for wd in (0, 5e-7):
-                r = md.residual(p, x, y, wd)
+                try:
+                    r = md.residual(p, x, y, wd)
+                except BaseException as e:
+                    run.failing(SITE, key + f":res{wd}", f"{cfg}: default "
+                                f"residual wrapper raised {type(e).__name__}:"
+                                f" {e} (the model function must only ever see"
+                                " non-ascending data)",
+                                payload={"kind": "wrap", "cfg": cfg},
+                                theorem="C13_default_residual")
+                    continue
                 from nanite.model.residuals import \
                     compute_contact_point_weights as cw
                 want = y - md.model(p, x)
